@@ -48,9 +48,23 @@ func hx(p []byte) string {
 	return hex.EncodeToString(p)
 }
 
+// genBytes is the generated payload `@seed:n` (same formula as LzModel/Driver.lean).
+func genBytes(seed, n int) []byte {
+	p := make([]byte, n)
+	for k := range p {
+		p[k] = byte(97 + ((7*k*k+13*k+seed)%1009)%5)
+	}
+	return p
+}
+
 func unhx(s string) []byte {
 	if s == "-" {
 		return nil
+	}
+	if len(s) > 0 && s[0] == '@' {
+		var seed, n int
+		fmt.Sscanf(s, "@%d:%d", &seed, &n)
+		return genBytes(seed, n)
 	}
 	b, err := hex.DecodeString(s)
 	if err != nil {
